@@ -226,3 +226,28 @@ def index_map_rejected(a, b, c, d, e, f):
         if not raises(lambda: coarsegrain_grid(sysm.space, list(im))):
             return False
     return True
+
+
+def double_alias_rejected(k, g, a, b):
+    """a dictionary holding TWO spellings of one field (canonical + alias, or two aliases, in either insertion order) is refused by the reader"""
+    from vt.props.C12 import SP_SYN, RE_SYN, NET_SYN, GRID_SYN, NODE_SYN, SYS_SYN, SCR_SYN
+    UNITS = ["units", "units_system", "units system", "u"]
+    table = {"species": SP_SYN, "reaction": RE_SYN, "network": NET_SYN, "grid": GRID_SYN, "node": NODE_SYN, "edge": [["nodes"], ["surface"], ["distance"], UNITS],
+             "graph": [["type"], ["nodes"], ["edges"], UNITS], "system": SYS_SYN, "script": SCR_SYN + [["init_state_processing", "init state processing"]]}
+    name, from_d, base, accepted = reader(k)
+    groups = table.get(name)
+    if not groups:
+        return True
+    syn = groups[g % len(groups)]
+    if len(syn) < 2:
+        return True
+    x, y = syn[a % len(syn)], syn[b % len(syn)]
+    if x == y:
+        return True
+    key = next((s_ for s_ in syn if s_ in base), None)
+    if key is None:
+        return True
+    d = {k_: v for k_, v in base.items() if k_ != key}
+    d[x] = base[key]
+    d[y] = base[key]
+    return raises(lambda: from_d(d))
